@@ -1154,6 +1154,9 @@ type crImg struct {
 	desc   string    // "after durable write #k = ..."
 	window string    // after:<kind>/before:<kind>
 	tail   string    // synced | buffered | torn
+	nrecs  int       // complete WAL records the recorder believes the image holds (-1: unknown)
+	w1     string    // second-crash images: window of the first crash
+	w2     string    // second-crash images: window of the second crash (within the recovering life)
 }
 
 func (im *crImg) db() *memorydb.Database {
@@ -1354,6 +1357,7 @@ type crRun struct {
 	panicCls string
 	post     *crFacts
 	finalHH  int64
+	walCheck bool // the replay class the code reported agrees with the #ENDHEIGHT markers of the image file
 }
 
 func crRestart(env *crEnv, img *crImg, wall time.Duration) *crRun {
@@ -1411,21 +1415,37 @@ func crRestart(env *crEnv, img *crImg, wall time.Duration) *crRun {
 			r.replay = "aborted"
 		}
 	}
-	if os.Getenv("C05_DBG") != "" && r.replay == "eh-present" {
+	// cross-check of the reported class against the image file itself
+	if r.replay == "eh-present" || r.replay == "replayed" {
+		has := false
 		dec := NewWALDecoder(bytes.NewReader(img.wal))
-		var hs []int64
-		n := 0
 		for {
 			m, err := dec.Decode()
 			if err != nil {
 				break
 			}
-			n++
-			if e, ok := m.Msg.(EndHeightMessage); ok {
-				hs = append(hs, e.Height)
+			if e, ok := m.Msg.(EndHeightMessage); ok && e.Height == int64(r.start) {
+				has = true
 			}
 		}
-		fmt.Printf("DBG eh-present start=%d image-wal: %d bytes %d records endheights=%v tail=%s window=%s startLogs=%v\n", r.start, len(img.wal), n, hs, img.tail, img.window, nd.startLogs)
+		r.walCheck = has == (r.replay == "eh-present")
+		if os.Getenv("C05_DBG") != "" && img.tail != "synced" && r.replay == "eh-present" && !strings.Contains(img.window, "before:end") && !strings.HasPrefix(img.window, "2nd") && r.hh0 == r.pre.hh {
+			fmt.Printf("DBG2 %s tail=%s len=%d\n", img.window, img.tail, len(img.wal))
+			dec := NewWALDecoder(bytes.NewReader(img.wal))
+			for {
+				m, err := dec.Decode()
+				if err != nil {
+					fmt.Println("  decode end:", err)
+					break
+				}
+				fmt.Printf("  %s\n", crWalMsgTok(m.Msg))
+			}
+		}
+		if !r.walCheck && os.Getenv("C05_DBG") != "" {
+			fmt.Printf("DBG replay class %s but image WAL has #ENDHEIGHT %d = %v (%d bytes) tail=%s window=%s logs=%v\n", r.replay, r.start, has, len(img.wal), img.tail, img.window, nd.startLogs)
+		}
+	} else {
+		r.walCheck = true
 	}
 	if _, ok := crFind(r.logs, "wal-repaired"); ok {
 		r.repaired = true
@@ -1654,7 +1674,8 @@ func (c *crCase) cause(r *crRun) string {
 	case r.replay == "eh-present":
 		return "endheight-without-state"
 	case r.repaired && r.replay == "no-marker":
-		return "wal-repair-drops-endheight"
+		// the first replay pass ran through the commit before the torn tail was met (see F7 in the report)
+		return "replay-resign"
 	case r.replay == "no-marker":
 		return "wal-marker-missing"
 	case r.replay == "replayed":
@@ -1674,7 +1695,16 @@ func (c *crCase) oracles(r *crRun, rels []crSigRel, twin *crFacts, inherited str
 	if inherited != "" {
 		cause = inherited
 	}
-	ctx := fmt.Sprintf("cause=%s mode=%s window=%s tail=%s", cause, mode, img.window, img.tail)
+	win, second := img.window, 0
+	if img.w1 != "" {
+		// second crash: the window that determines the root cause
+		second = 1
+		win = img.w2
+		if inherited != "" {
+			win = img.w1
+		}
+	}
+	ctx := fmt.Sprintf("cause=%s mode=%s window=%s tail=%s second-crash=%d", cause, mode, win, img.tail, second)
 	at := " crash-point=\"" + img.desc + "\""
 	fail := func(class, more string) {
 		c.o.Fail(c.opNo, class, fmt.Sprintf("%s %s%s", ctx, more, at))
@@ -1775,7 +1805,33 @@ func (c *crCase) oracles(r *crRun, rels []crSigRel, twin *crFacts, inherited str
 }
 
 func (c *crCase) step(in string, img *crImg, withRel bool, inherited string) (*crRun, string) {
+	if img.nrecs >= 0 {
+		// the recorder's record offsets must describe the image file (they are what the model is told)
+		n := 0
+		dec := NewWALDecoder(bytes.NewReader(img.wal))
+		for {
+			if _, err := dec.Decode(); err != nil {
+				break
+			}
+			n++
+		}
+		if n != img.nrecs {
+			c.o.Count("harness:offset-glitch-op-skipped")
+			if img.tail == "synced" {
+				c.o.Fail(c.opNo, "harness-wal-offsets", fmt.Sprintf("cause=harness decoded=%d recorded=%d window=%s", n, img.nrecs, img.window))
+			}
+			return nil, ""
+		}
+	}
 	r := crRestart(c.env, img, 3*time.Second)
+	if !r.walCheck {
+		// the class is taken from the node's log; on disagreement with the file run the restart once more
+		c.o.Count("harness:restart-repeated")
+		r = crRestart(c.env, img, 3*time.Second)
+		if !r.walCheck {
+			c.o.Fail(c.opNo, "replay-class-vs-wal", fmt.Sprintf("cause=harness reported=%s window=%s tail=%s", r.replay, img.window, img.tail))
+		}
+	}
 	all := crRelate(img.pub, r.life.sigs)
 	c.oracles(r, all, c.facts0, inherited)
 	rels := crSigsOf(all, r.start)
@@ -1942,16 +1998,22 @@ func crRunCase(o *crOut, idx int, r *crRand, tier string) {
 	}
 	for k := 0; k <= len(l.log); k++ {
 		img := crCut(base, l, k, "synced")
-		run, cause := c.step(fmt.Sprintf("K %d synced %d", k, crNRecs(l, len(img.wal))), img, true, "")
+		img.nrecs = crNRecs(l, len(img.wal))
+		run, cause := c.step(fmt.Sprintf("K %d synced %d", k, img.nrecs), img, true, "")
+		if run == nil {
+			continue
+		}
 		picks = append(picks, pick{k, run, img, cause})
 		if !c.thorough && k < variantsFrom {
 			continue
 		}
 		// the same crash point with the unsynced WAL tail surviving / torn
 		if b := crCut(base, l, k, "buffered"); len(b.wal) != len(img.wal) {
-			c.step(fmt.Sprintf("K %d buffered %d", k, crNRecs(l, len(b.wal))), b, true, "")
+			b.nrecs = crNRecs(l, len(b.wal))
+			c.step(fmt.Sprintf("K %d buffered %d", k, b.nrecs), b, true, "")
 			if t := crCut(base, l, k, "torn"); t.tail == "torn" {
-				c.step(fmt.Sprintf("K %d torn %d", k, crNRecs(l, len(t.wal))), t, true, "")
+				t.nrecs = crNRecs(l, len(t.wal))
+				c.step(fmt.Sprintf("K %d torn %d", k, t.nrecs), t, true, "")
 			}
 		}
 	}
@@ -1984,8 +2046,10 @@ func crRunCase(o *crOut, idx int, r *crRand, tier string) {
 				continue
 			}
 			img2 := crCut(p.img, l1, j, "synced")
+			img2.w1, img2.w2 = p.img.window, img2.window
 			img2.window = "2nd:" + p.img.window + "+" + img2.window
 			img2.desc = p.img.desc + "; restarted; second crash " + img2.desc
+			img2.nrecs = crNRecs(l, len(p.img.wal)) + crNRecs(l1, len(img2.wal))
 			c.step(fmt.Sprintf("X %d %d %d synced %d %d", n+1, p.k, j, crNRecs(l, len(p.img.wal)), crNRecs(l1, len(img2.wal))), img2, false, inh)
 		}
 	}
